@@ -173,6 +173,43 @@ func mapsFamily(maxEntries int) seq.Family {
 	}
 }
 
+// sizesFamily: every key length and every value length up to 17000 bytes (past the two- and
+// three-byte length-prefix boundaries), and the lengths around 2^20 and 2^21.
+func sizesFamily(maxLen int) seq.Family {
+	mk := func(kl, vl int) map[string]string {
+		return map[string]string{strings.Repeat("k", kl): strings.Repeat("v", vl)}
+	}
+	return seq.Family{
+		Name: fmt.Sprintf("all-key/value-lengths<=%d", maxLen),
+		Run: func(ctx *seq.Ctx) {
+			try := func(kl, vl int) bool {
+				ctx.Count(1, 6, 1)
+				if msg := mapCase(mk(kl, vl)); msg != "" {
+					return !ctx.Fail(msg, [2]int{kl, vl})
+				}
+				return true
+			}
+			for l := 0; l <= maxLen && !ctx.Expired(); l++ {
+				if !try(1, l) || !try(l, 0) {
+					return
+				}
+			}
+			for _, l := range []int{127, 128, 8191, 8192, 16383, 16384, 1<<20 - 1, 1 << 20, 1<<20 + 5, 1<<21 - 1, 1 << 21, 1<<21 + 1} {
+				if !try(l, l) || !try(1, l) || !try(l, 1) {
+					return
+				}
+			}
+			ctx.Class("round-trip")
+			ctx.Sample([2]int{1, 8192})
+		},
+		Replay: func(in json.RawMessage) string {
+			var kv [2]int
+			_ = json.Unmarshal(in, &kv)
+			return mapCase(mk(kv[0], kv[1]))
+		},
+	}
+}
+
 func decodeCase(b []byte) (msg string, class string) {
 	var got map[string]string
 	var err error
@@ -419,9 +456,9 @@ func families(tier string) []seq.Family {
 	}
 	reduced := []byte{0x00, 0x01, 0x02, 0x03, 0x0a, 0x12, 0x61, 0x80, 0xff}
 	if tier == "quick" {
-		return []seq.Family{mapsFamily(2), bytesFamily("decode-bytes<=3/full", full, 3), bytesFamily("decode-bytes<=7/9sym", reduced, 7), lengthsFamily(), apiFamily(4)}
+		return []seq.Family{mapsFamily(2), bytesFamily("decode-bytes<=3/full", full, 3), bytesFamily("decode-bytes<=7/9sym", reduced, 7), lengthsFamily(), apiFamily(4), sizesFamily(17000)}
 	}
-	return []seq.Family{mapsFamily(3), bytesFamily("decode-bytes<=3/full", full, 3), bytesFamily("decode-bytes<=8/9sym", reduced, 8), lengthsFamily(), apiFamily(5)}
+	return []seq.Family{mapsFamily(3), bytesFamily("decode-bytes<=3/full", full, 3), bytesFamily("decode-bytes<=8/9sym", reduced, 8), lengthsFamily(), apiFamily(5), sizesFamily(70000)}
 }
 
 func init() {
